@@ -59,22 +59,33 @@ ASSUMPTIONS = [
 ]
 
 
-def _floors(scale):
-    f = {"cases_held": 330, "distinct_nontrivial": 330, "matrices_compared": 11000, "entries_compared": 18_000_000,
-         "instances": 5000, "history_calls": 11000, "psd_checks": 240, "rbm_modes_checked": 1100,
-         "mass_directions_checked": 500, "poisson_const_checks": 260, "poisson_energy_checks": 260,
-         "stiffness_symmetry_checks": 260, "x:complex": 250}
-    f.update({f"bc:{k}": 500 for k in BC_KINDS})
-    f.update({f"const:{k}": 750 for k in CONST_KINDS})
-    f.update({f"mtype:{k}": 800 for k in MTYPES})
-    f.update({f"diag:{k}": 900 for k in DIAG_KINDS})
-    f.update({f"x:{k}": 1000 for k in X_KINDS})
-    return {k: int(v * scale) for k, v in f.items()}
+def _floors(base, bc, const, mtype, diag, x):
+    f = dict(base)
+    f.update({f"bc:{k}": bc for k in BC_KINDS})
+    f.update({f"const:{k}": const for k in CONST_KINDS})
+    f.update({f"mtype:{k}": mtype for k in MTYPES})
+    f.update({f"diag:{k}": diag for k in DIAG_KINDS})
+    f.update({f"x:{k}": x for k in X_KINDS})
+    return f
 
 
-# measured on the unchanged tree (seed 0): quick 668 cases / 10 256 instances / 21 840 matrices / 3.6e7 entries;
-# thorough 2 312 cases / 34 608 instances / 77 040 matrices / 6.8e8 entries.  Floors = about half of that.
-FLOORS = {"quick": _floors(1.0), "thorough": dict(_floors(3.4), entries_compared=340_000_000)}
+# measured on the unchanged tree (seed 0): quick 668 cases / 10 256 instances / 21 840 matrices / 3.6e7 entries,
+# every bc kind ~1 530, constant kind ~1 590, matrix type ~1 640, bcdiagval kind ~1 840, x kind ~2 190..2 700;
+# thorough 3 136 cases / 39 552 instances / 91 872 matrices / 2.1e9 entries (bc ~5 500, constant ~5 800,
+# matrix type ~6 270, bcdiagval ~6 580, x ~9 530).  Floors = about half of that.
+FLOORS = {
+    "quick": _floors({"cases_held": 330, "distinct_nontrivial": 330, "matrices_compared": 11000,
+                      "entries_compared": 18_000_000, "instances": 5000, "history_calls": 11000, "psd_checks": 240,
+                      "rbm_modes_checked": 1100, "mass_directions_checked": 500, "poisson_const_checks": 260,
+                      "poisson_energy_checks": 260, "stiffness_symmetry_checks": 260, "x:complex": 250},
+                     bc=750, const=790, mtype=820, diag=900, x=1100),
+    "thorough": _floors({"cases_held": 1550, "distinct_nontrivial": 1550, "matrices_compared": 45000,
+                         "entries_compared": 1_000_000_000, "instances": 19500, "history_calls": 45000,
+                         "psd_checks": 1500, "rbm_modes_checked": 7500, "mass_directions_checked": 3300,
+                         "poisson_const_checks": 1700, "poisson_energy_checks": 1700,
+                         "stiffness_symmetry_checks": 1700, "x:complex": 1100},
+                        bc=2700, const=2900, mtype=3100, diag=3300, x=4700),
+}
 TIMEOUT_CASE = 300
 
 
